@@ -17,6 +17,10 @@ TraceFBase == /\ IsEvent("FRun") /\ ev.k = -1
               /\ base' = [sc |-> ev.sc, outcome |-> ev.outcome, anyerr |-> ev.anyerr]
 TraceFRun  == /\ IsEvent("FRun") /\ ev.k >= 0 /\ base.sc = ev.sc
               /\ Check(Law(ev.panic, ev.anyerr \/ base.anyerr, ev.finished /\ ev.outcome = base.outcome))
+              \* ClosedStayIntact: whatever a failing call leaves behind, an archive that a later finish() reports as written still
+              \* holds every entry that was closed before that call, unchanged (name, metadata, stored bytes, content) - a failure may
+              \* cost the entry being written, never its finished neighbours (C14, C13 say so for the failure-free case)
+              /\ Check(ev.side = "writer" => ev.closed_intact)
               /\ UNCHANGED base
 TraceInit == l = 1 /\ base = NoBase /\ call = 1 /\ op = 0 /\ k = 0 /\ anyerr = FALSE /\ panic = FALSE /\ damaged = FALSE /\ done = FALSE
 TraceNext == (TraceReset \/ TraceFBase \/ TraceFRun) /\ UNCHANGED vars
